@@ -5,8 +5,8 @@ SPEC = {
     "id": "C18",
     "group": G,
     "level": "proof",
-    # three ~100 s / 2-3 GB CBMC runs at a time keep the quick tier well under 8 min without crowding the box
-    "caps": {"jobs": 6, "mem_gb": 16},
+    # each bridge harness is a 35-75 s / ~2 GB CBMC run; 8 at a time keeps both tiers short without crowding the box
+    "caps": {"jobs": 8, "mem_gb": 12},
     "harnesses": [
         # (a) level conversions
         H("c18::c18_conv_level", desc="AsTrace for log::Level / AsLog for Level: rank preserving, mutually inverse, injective, order preserving in both crates' orders",
@@ -15,21 +15,48 @@ SPEC = {
           sym="two filters over all 6, one level over 5"),
         H("c18::c18_conv_metadata", desc="log::Metadata -> Metadata -> log::Metadata keeps level and target; result is an event",
           sym="level in 5, target = every ASCII string of 0..=3 bytes"),
-        # (b)+(c) log -> tracing
-        H("c18::c18_bridge_tracer", desc="LogTracer::new().log(record) under a collector whose enabled() is a symbolic table over (level, target class): "
-          "exactly one event iff table[record level][class(record target)], none otherwise; collector only asked about the record's own level+target; "
-          "inside event(): is_log, normalized_metadata target/level/file/line/module == the record's, message field visited once",
-          sym="level in 5; target, file, module = ASCII strings of 0..=3 bytes; file/line/module present-or-absent; line: u32; 15-entry verdict table"),
-        H("c18::c18_bridge_format_trace", desc="same through tracing_log::format_trace with the tracing max level left at OFF (no level gate of its own)",
-          sym="as c18_bridge_tracer"),
-        H("c18::c18_reach", kind="reach", desc="vacuity twin: a delivered record with file, line and module present is reachable"),
-        H("c18::c18_bridge_tracer_max", tier="thorough", desc="symbolic tracing max level: delivered iff level <= max and the table accepts; above max the collector is not even asked",
-          sym="as c18_bridge_tracer + max level in 6"),
-        H("c18::c18_bridge_ignore", tier="thorough", desc="LogTracer::builder().ignore_crate(\"ab\").with_max_level(f).init() then log::logger().log(record): "
-          "target starting with the ignored prefix => no event and collector not asked; otherwise the table decides; log::max_level()==f afterwards",
-          sym="as c18_bridge_tracer + builder filter in 6 (targets 'ab', 'abx', 'a', 'ax', ... all covered by the 3 symbolic bytes)"),
-        H("c18::c18_bridge_tracer_cold", tier="thorough", timeout=1800, desc="as c18_bridge_tracer but from the cold state: the per-level Lazy field keys are initialised by the record under test",
-          sym="as c18_bridge_tracer"),
+        # (b)+(c) log -> tracing; the record level is case-split (l1=Error .. l5=Trace), everything else symbolic, cold start
+        H("c18::c18_bridge_tracer_l1", desc="LogTracer::new().log(Error record) under a collector whose enabled() is a symbolic table over (level, target class): exactly one event iff table[record level][class(record target)], none otherwise; collector only asked about the record's own level+target; inside event(): is_log, normalized_metadata target/level/file/line/module == the record's, message field visited once",
+          sym="target, file, module = ASCII strings of 0..=3 bytes; file/line/module present-or-absent; line: u32; 15-entry verdict table"),
+        H("c18::c18_bridge_tracer_l2", desc="LogTracer::new().log(Warn record) under a collector whose enabled() is a symbolic table over (level, target class): exactly one event iff table[record level][class(record target)], none otherwise; collector only asked about the record's own level+target; inside event(): is_log, normalized_metadata target/level/file/line/module == the record's, message field visited once",
+          sym="target, file, module = ASCII strings of 0..=3 bytes; file/line/module present-or-absent; line: u32; 15-entry verdict table"),
+        H("c18::c18_bridge_tracer_l3", desc="LogTracer::new().log(Info record) under a collector whose enabled() is a symbolic table over (level, target class): exactly one event iff table[record level][class(record target)], none otherwise; collector only asked about the record's own level+target; inside event(): is_log, normalized_metadata target/level/file/line/module == the record's, message field visited once",
+          sym="target, file, module = ASCII strings of 0..=3 bytes; file/line/module present-or-absent; line: u32; 15-entry verdict table"),
+        H("c18::c18_bridge_tracer_l4", desc="LogTracer::new().log(Debug record) under a collector whose enabled() is a symbolic table over (level, target class): exactly one event iff table[record level][class(record target)], none otherwise; collector only asked about the record's own level+target; inside event(): is_log, normalized_metadata target/level/file/line/module == the record's, message field visited once",
+          sym="target, file, module = ASCII strings of 0..=3 bytes; file/line/module present-or-absent; line: u32; 15-entry verdict table"),
+        H("c18::c18_bridge_tracer_l5", desc="LogTracer::new().log(Trace record) under a collector whose enabled() is a symbolic table over (level, target class): exactly one event iff table[record level][class(record target)], none otherwise; collector only asked about the record's own level+target; inside event(): is_log, normalized_metadata target/level/file/line/module == the record's, message field visited once",
+          sym="target, file, module = ASCII strings of 0..=3 bytes; file/line/module present-or-absent; line: u32; 15-entry verdict table"),
+        H("c18::c18_bridge_format_trace_l1", tier="thorough", desc="same through tracing_log::format_trace(Error record) with the tracing max level left at OFF (no level gate of its own)",
+          sym="target, file, module = ASCII strings of 0..=3 bytes; file/line/module present-or-absent; line: u32; 15-entry verdict table"),
+        H("c18::c18_bridge_format_trace_l2", tier="thorough", desc="same through tracing_log::format_trace(Warn record) with the tracing max level left at OFF (no level gate of its own)",
+          sym="target, file, module = ASCII strings of 0..=3 bytes; file/line/module present-or-absent; line: u32; 15-entry verdict table"),
+        H("c18::c18_bridge_format_trace_l3", desc="same through tracing_log::format_trace(Info record) with the tracing max level left at OFF (no level gate of its own)",
+          sym="target, file, module = ASCII strings of 0..=3 bytes; file/line/module present-or-absent; line: u32; 15-entry verdict table"),
+        H("c18::c18_bridge_format_trace_l4", tier="thorough", desc="same through tracing_log::format_trace(Debug record) with the tracing max level left at OFF (no level gate of its own)",
+          sym="target, file, module = ASCII strings of 0..=3 bytes; file/line/module present-or-absent; line: u32; 15-entry verdict table"),
+        H("c18::c18_bridge_format_trace_l5", tier="thorough", desc="same through tracing_log::format_trace(Trace record) with the tracing max level left at OFF (no level gate of its own)",
+          sym="target, file, module = ASCII strings of 0..=3 bytes; file/line/module present-or-absent; line: u32; 15-entry verdict table"),
+        H("c18::c18_reach", kind="reach", desc="vacuity twin: a delivered Warn record with file, line and module present is reachable"),
+        H("c18::c18_bridge_max_l1", tier="thorough", desc="Error record, symbolic tracing max level: delivered iff level <= max and the table accepts; above max the collector is not even asked",
+          sym="target, file, module = ASCII strings of 0..=3 bytes; file/line/module present-or-absent; line: u32; 15-entry verdict table; max level in 6"),
+        H("c18::c18_bridge_max_l2", tier="thorough", desc="Warn record, symbolic tracing max level: delivered iff level <= max and the table accepts; above max the collector is not even asked",
+          sym="target, file, module = ASCII strings of 0..=3 bytes; file/line/module present-or-absent; line: u32; 15-entry verdict table; max level in 6"),
+        H("c18::c18_bridge_max_l3", tier="thorough", desc="Info record, symbolic tracing max level: delivered iff level <= max and the table accepts; above max the collector is not even asked",
+          sym="target, file, module = ASCII strings of 0..=3 bytes; file/line/module present-or-absent; line: u32; 15-entry verdict table; max level in 6"),
+        H("c18::c18_bridge_max_l4", tier="thorough", desc="Debug record, symbolic tracing max level: delivered iff level <= max and the table accepts; above max the collector is not even asked",
+          sym="target, file, module = ASCII strings of 0..=3 bytes; file/line/module present-or-absent; line: u32; 15-entry verdict table; max level in 6"),
+        H("c18::c18_bridge_max_l5", tier="thorough", desc="Trace record, symbolic tracing max level: delivered iff level <= max and the table accepts; above max the collector is not even asked",
+          sym="target, file, module = ASCII strings of 0..=3 bytes; file/line/module present-or-absent; line: u32; 15-entry verdict table; max level in 6"),
+        H("c18::c18_bridge_ignore_l1", tier="thorough", desc="Error record, LogTracer::builder().ignore_crate(\"ab\").with_max_level(f).init() then log::logger().log(record): target starting with the ignored prefix => no event and collector not asked; otherwise the table decides; log::max_level()==f afterwards",
+          sym="target, file, module = ASCII strings of 0..=3 bytes; file/line/module present-or-absent; line: u32; 15-entry verdict table; builder filter in 6"),
+        H("c18::c18_bridge_ignore_l2", tier="thorough", desc="Warn record, LogTracer::builder().ignore_crate(\"ab\").with_max_level(f).init() then log::logger().log(record): target starting with the ignored prefix => no event and collector not asked; otherwise the table decides; log::max_level()==f afterwards",
+          sym="target, file, module = ASCII strings of 0..=3 bytes; file/line/module present-or-absent; line: u32; 15-entry verdict table; builder filter in 6"),
+        H("c18::c18_bridge_ignore_l3", tier="thorough", desc="Info record, LogTracer::builder().ignore_crate(\"ab\").with_max_level(f).init() then log::logger().log(record): target starting with the ignored prefix => no event and collector not asked; otherwise the table decides; log::max_level()==f afterwards",
+          sym="target, file, module = ASCII strings of 0..=3 bytes; file/line/module present-or-absent; line: u32; 15-entry verdict table; builder filter in 6"),
+        H("c18::c18_bridge_ignore_l4", tier="thorough", desc="Debug record, LogTracer::builder().ignore_crate(\"ab\").with_max_level(f).init() then log::logger().log(record): target starting with the ignored prefix => no event and collector not asked; otherwise the table decides; log::max_level()==f afterwards",
+          sym="target, file, module = ASCII strings of 0..=3 bytes; file/line/module present-or-absent; line: u32; 15-entry verdict table; builder filter in 6"),
+        H("c18::c18_bridge_ignore_l5", tier="thorough", desc="Trace record, LogTracer::builder().ignore_crate(\"ab\").with_max_level(f).init() then log::logger().log(record): target starting with the ignored prefix => no event and collector not asked; otherwise the table decides; log::max_level()==f afterwards",
+          sym="target, file, module = ASCII strings of 0..=3 bytes; file/line/module present-or-absent; line: u32; 15-entry verdict table; builder filter in 6"),
         # (d) tracing -> log
         H("c18::c18_rev_event", desc="no collector ever installed: event! at each level emits exactly one log record (mapped level, callsite target, location present) "
           "iff level <= log::max_level() and the logger's enabled() accepts; has_been_set stays false",
@@ -57,10 +84,10 @@ SPEC = {
         "Span::{new_disabled, record_all, log, do_enter, do_exit, enter}, Drop for Span / Entered",
         "log 0.4.34: Record/Metadata builders, set_logger, set_boxed_logger, logger, max_level, set_max_level",
     ],
-    "sym": "record level over all 5; target / file / module_path every ASCII string of 0..=3 bytes; file, line, module each present or absent; "
+    "sym": "record level over all 5 (case split: one harness per level); target / file / module_path every ASCII string of 0..=3 bytes; file, line, module each present or absent; "
            "line any u32; collector filter = any table over 5 levels x 3 target classes (exactly \"log\" / starts with 'a' / other); "
            "tracing max level and log max level over all 6; ignore list with the one prefix \"ab\"; macro level over all 5",
-    "bounds": "strings <= 3 bytes (ASCII); one record per harness; ignore list of exactly one 2-byte prefix; one event / one span per history in the reverse "
+    "bounds": "strings <= 3 bytes (ASCII); one record per harness (a second record would meet the same collector and already-initialised field keys); ignore list of exactly one 2-byte prefix; one event / one span per history in the reverse "
               "direction; unwind 16 (longest field name compared by FieldSet::field is 15 bytes) in bridge harnesses, unwind 4 in the reverse direction "
               "(oracle string comparisons are loop-free); unwinding assertions on",
     "outside": "the record TEXT in both directions beyond existence (message is the literal \"m\"/\"msg\"; the bridged event is only checked to carry a `message` "
@@ -74,7 +101,7 @@ SPEC = {
               "once_cell shim: Lazy initialises exactly once on first deref (tracing-log's per-level field keys)",
               "H1: tracing-core sequential thread_local!, __verif::{set_max, dispatch_unregistered, for_each_registered_callsite}"],
     "assumptions": ["the recording collector's filter is a function of (level, target class) only, so its two answers for one record agree",
-                    "steady state in all bridge harnesses except c18_bridge_tracer_cold: the five Lazy<Fields> were forced beforehand through AsTrace for log::Metadata",
+                    "every bridge harness starts cold (fresh process state): the record under test initialises its level's Lazy<Fields>; the state after that is the state any later record of that level sees",
                     "Kani models the debug profile (log::STATIC_MAX_LEVEL = Trace) and panic = abort",
                     "once_cell contract shim (see stubs)"],
     "manifest": {
